@@ -79,9 +79,19 @@ func zzH_C13_flushRaceIn() {
 	}
 	r.clientIn = &zzChunks13{chunks: chunks}
 	confirm := verifNondetBool()
+	var tun *tunnelRelay
+	if verifNondetBool() {
+		// the relay has paired a tunnel connection, but the client did not report the tunnel as in use (it gave up on
+		// it, or its action line was refused): in-band bytes stay in-band
+		tun = &tunnelRelay{clientBufChan: make(chan []byte, 20), serverBufChan: make(chan []byte, 20)}
+		r.tunnelRelay.Store(tun)
+	}
 	go r.wrapInput()
 	go r.flushHandshakeBuffer(confirm)
 	verifQuiesce()
+	if tun != nil {
+		verifAssert(len(tun.clientBufChan) == 0 && len(tun.serverBufChan) == 0, "in-band bytes went into a tunnel that is not in use")
+	}
 	zzExpect13(zzDrain13(r.osStdinChan), want, "to server")
 	verifAssert(len(r.osStdoutChan) == 0, "client bytes delivered to the client side")
 	if confirm {
